@@ -98,7 +98,7 @@ def redeclare(rng, r):
         if kind == "param":
             # the declared size is one of the subroutine's own PARAMETERS, bare (input_params: [N], port size: N): the
             # simplest expression over its parameters there is
-            ps_ = [q for q in n["input_params"] if q not in H.POW_EXPONENTS and q != "dq"]
+            ps_ = [q for q in n["input_params"] if q not in H.POW_EXPONENTS and q != "dq"] + [l[0] for l in n["local_variables"]]   # (or a declared LOCAL VARIABLE)
             if ps_:
                 p["size"] = E.sym(rng.choice(ps_))
                 k += 1
@@ -241,6 +241,34 @@ def deep_link_family():
     return out
 
 
+def fan_in_family():
+    """A child fed by TWO different siblings, its two ports declared with one symbol (or a constant / a compound size), the
+    children and the connections listed in every order: whatever the listing, the child is compiled after both feeders."""
+    import itertools
+
+    def node(name, params=(), ports=(), conns=(), kids=(), links=()):
+        return {"name": name, "type": None, "input_params": list(params), "local_variables": [], "linked_params": [list(l) for l in links],
+                "ports": list(ports), "resources": [], "connections": [list(c) for c in conns], "repetition": None, "children": list(kids)}
+
+    def port(n, d, size):
+        return {"name": n, "direction": d, "size": size}
+    out = []
+    decls = [(E.sym("N"), E.sym("N")), (E.sym("N"), E.op("mul", E.num(2), E.sym("N"))), (E.num(2), E.sym("N"))]
+    for order in itertools.permutations(["a", "b", "c"]):
+        for flip in (False, True):
+            d0, d1 = decls[(len(out)) % len(decls)]
+            kids = {"a": node("a", ports=[port("in_0", "input", None), port("out_0", "output", E.sym("#in_0"))]),
+                    "b": node("b", ports=[port("in_0", "input", None), port("out_0", "output", E.sym("#in_0"))]),
+                    "c": node("c", ports=[port("in_0", "input", d0), port("in_1", "input", d1)])}
+            conns = [["in_0", "a.in_0"], ["in_1", "b.in_0"], ["a.out_0", "c.in_0"], ["b.out_0", "c.in_1"]]
+            if flip:
+                conns = [conns[0], conns[1], conns[3], conns[2]]
+            root = node("root", params=["K", "M"], ports=[port("in_0", "input", E.sym("K")), port("in_1", "input", E.sym("M"))],
+                        conns=conns, kids=[kids[k] for k in order])
+            out.append({"routine": root, "seed": 31 + len(out), "n_assign": 6, "native": False, "lo": 1})
+    return out
+
+
 def gen_cases(rng, n, max_depth):
     out = []
     while len(out) < n:
@@ -315,7 +343,7 @@ def mk_stream(cases):
 def streams(tier, seed):
     rng = lib.Rng(f"C06-{seed}")
     n = 150 if tier == "quick" else 2500
-    return [mk_stream(lib.load_corpus(PROP, "size-mismatch") + deep_link_family() + gen_cases(rng, n, 3))]
+    return [mk_stream(lib.load_corpus(PROP, "size-mismatch") + deep_link_family() + fan_in_family() + gen_cases(rng, n, 3))]
 
 
 def replay_streams(payload):
